@@ -318,6 +318,24 @@ def r4_prefix(ctx):
             f'the finality flag handed to next_cut is exactly `{la} is None` (the sentinel of the look-ahead)',
             f'the finality flag `{src(fin) if fin is not None else None}` is not "there is no next piece": an empty piece in mid-stream (or any falsy piece) is treated as end of stream and the tail rule cuts unaligned / out-of-bounds chunks',
         )
+        # every iteration of the outer loop (every piece, empty ones included) reaches the cut loop
+        if wl_outer := [w for w in walk_local(f.node) if isinstance(w, ast.While) and any(x is gst for x in ast.walk(w)) and not isinstance(w.test, ast.Constant)]:
+            outer = wl_outer[0]
+            cut_st = enclosing_stmt(cut_calls[0])
+            cut_nodes = cfg.nodes_of(cut_st, ('stmt', 'ok'))
+            heads = cfg.nodes_of(outer, 'loop')
+            skip = None
+            for t in cfg.nodes_of(outer, 'true'):
+                skip = skip or cfg.path(t, heads, avoid=cut_nodes, kinds=('normal',))
+            ctx.check(
+                skip is None,
+                'C10.R4',
+                f'{func_label(f)}|every-piece-reaches-the-cut-loop',
+                loc(f, outer),
+                'every iteration of the piece loop runs the cut loop (also for an empty piece, also for the last one)',
+                'an iteration of the piece loop can skip the cut loop (e.g. `continue` for an empty piece): when that piece is the last one the carry-over bytes are never drained and the end of the stream is lost',
+                cfg.describe_path([n for n in (skip or []) if n.kind in ('stmt', 'true', 'false', 'test')][:8], f.module),
+            )
         # the sentinel of next() is None and the loop runs while the piece is not None
         oksent = all(len(nx.args) == 2 and isinstance(nx.args[1], ast.Constant) and nx.args[1].value is None for nx in [c for c in calls_in(f.node) if dotted(c.func) == 'next'])
         wl = [w for w in walk_local(f.node) if isinstance(w, ast.While) and any(x is gst for x in ast.walk(w)) and not isinstance(w.test, ast.Constant)]
